@@ -84,7 +84,9 @@ impl CheckContext {
     pub fn relevance(&self, failure: &Failure) -> Relevance {
         if failure.property == "INCONCLUSIVE" { return Relevance::Inconclusive; }
         if failure.property == "STALL" {
-            return if self.stall_is_violation { Relevance::Violation } else { Relevance::Inconclusive };
+            // a sweeper that completes no sweep for the whole watchdog period (20 s at a tick of well under a millisecond) is dead
+            // or blocked: for C10 (every expired key is eventually removed) that is the violation itself
+            return if self.stall_is_violation || (self.property == "C10" && failure.tag == "stall/sweeper") { Relevance::Violation } else { Relevance::Inconclusive };
         }
         if !failure.concerns(&self.property) && std::env::var("VERIF_REPORT_ANY").is_err() { return Relevance::Other; }
         for finding in &self.known {
